@@ -439,6 +439,8 @@ func TestStress(t *testing.T) {
 			runStress(t, stressCfg{name: fmt.Sprintf("stress-nested-%d-%d", seed, i), cfg: c, cap: []int{0, 2, 16}[i%3], callers: 6, perC: 8, yield: i%2 == 1}, seed+int64(i), bw, 40*time.Second)
 		case "registry":
 			runRegistryStress(t, fmt.Sprintf("stress-registry-%d-%d", seed, i), seed+int64(i), bw)
+		case "sender":
+			runSenderStress(fmt.Sprintf("stress-sender-%d-%d", seed, i), seed+int64(i), 3*time.Second, bw)
 		case "ctor":
 			runCtorStress(fmt.Sprintf("stress-ctor-%d-%d", seed, i), seed+int64(i), 400, bw)
 		}
